@@ -63,6 +63,12 @@ def run(ctx) -> None:
     for kind in ("add", "remove"):
         ctx.reuse("C04.frame", c02.guard, kind)
     ctx.reuse("C04.frame", c02.no_swallow)
+    # the well IDs that operations address are the IDs of the index map (no truncated copies), and the helper that hands out
+    # trough wells for n tips reads them column-major
+    from . import c08, c19
+
+    ctx.reuse("C04.alias", c08.id_width)
+    ctx.reuse("C04.alias", c19.check)
     for dev in concrete_devices(ctx):
         ctx.reuse("C04.pairing", c06.wiring, dev)
         ctx.reuse("C04.pairing", c06.iteration_space, dev)
@@ -350,6 +356,14 @@ def pairing_family(ctx) -> None:
             if isinstance(expr, ast.Name):
                 locals_.add(expr.id)
             check_sequence_normalisation(ctx, rule, fv, term, f"{f.qualname}/{what}", f.where(expr), f"`{what}` (from argument `{base.id}`)")
+            # the wells say how many cavities are charged: only the volume may be a singleton that is applied to all of them.
+            # (the worklist methods pair the caller's wells with the volumes record by record - a labware that expands one well
+            # to several volumes books amounts for which no record is written)
+            if base.id == "wells" and f.short in ("Labware.add", "Labware.remove", "BaseWorklist.aspirate", "BaseWorklist.dispense"):
+                rep = [c_ for ch in norm_chains(term) for nm, c_ in ch if nm in ("repeat", "tile", "resize", "broadcast_to")]
+                ctx.rep.check(not rep, rule, f"{f.qualname}/{what}/wells-not-broadcast", "the named wells are charged as they are (no recycling of a single well)",
+                              f"a single well is repeated to match several volumes (`{show(rep[0])[:60] if rep else ''}`): the labware books every volume on that well while aspirate()/dispense() write one record "
+                              "per named well - tracked volumes and records disagree (such calls used to be rejected)", where=f.where(expr))
         _check_broadcast(ctx, rule, fv, locals_ | set(PAIRING_FAMILY[short]))
     ctx.rep.floor(rule, "pairing-family functions", n, 8)
 
